@@ -5,7 +5,10 @@ import (
 	"bytes"
 	"context"
 	"crypto/ecdsa"
+	"crypto/rand"
+	"crypto/rsa"
 	"crypto/tls"
+	"crypto/x509"
 	"encoding/asn1"
 	"encoding/base64"
 	"encoding/json"
@@ -21,6 +24,7 @@ import (
 	"runtime/debug"
 	"sort"
 	"strings"
+	"sync"
 	"testing"
 	"time"
 
@@ -485,6 +489,44 @@ type holder struct {
 	state func() string
 }
 
+var (
+	generatedKeysMu sync.Mutex
+	generatedKeys   = map[string][]byte{}
+)
+
+// unsupportedKey: a key heimdall has no algorithm for - from the fixtures, or an RSA key of a size nobody planned for
+// (generated once per process)
+func unsupportedKey(name string) []byte {
+	if !strings.HasPrefix(name, "generated:rsa") {
+		return vkit.ReadFixture(name)
+	}
+
+	generatedKeysMu.Lock()
+	defer generatedKeysMu.Unlock()
+
+	if have, ok := generatedKeys[name]; ok {
+		return have
+	}
+
+	var bits int
+
+	fmt.Sscanf(name, "generated:rsa%d", &bits)
+
+	key, err := rsa.GenerateKey(rand.Reader, bits)
+	if err != nil {
+		panic(err)
+	}
+
+	der, err := x509.MarshalPKCS8PrivateKey(key)
+	if err != nil {
+		panic(err)
+	}
+
+	generatedKeys[name] = pem.EncodeToMemory(&pem.Block{Type: "PRIVATE KEY", Bytes: der})
+
+	return generatedKeys[name]
+}
+
 func validKeyStore(withChain bool, keys ...string) []byte {
 	var buf bytes.Buffer
 
@@ -719,7 +761,7 @@ func TestKeyStoreReloadsAreRejectedNotFatal(t *testing.T) {
 		case "certs-only":
 			content = append(vkit.ReadFixture("ecp256.cert.pem"), vkit.ReadFixture("intermediate.cert.pem")...)
 		case "unsupported-key":
-			content = vkit.ReadFixture(rapid.SampledFrom([]string{"rsa1024.key.pem", "rsa1024.pkcs1.key.pem", "ecp224.key.pem", "ed25519.key.pem"}).Draw(t, "keyFile"))
+			content = unsupportedKey(rapid.SampledFrom([]string{"rsa1024.key.pem", "rsa1024.pkcs1.key.pem", "ecp224.key.pem", "ed25519.key.pem", "generated:rsa2560", "generated:rsa2304"}).Draw(t, "keyFile"))
 		case "encrypted-key-edited":
 			// an encrypted PKCS#8 key (PBES2, AES-256-CBC; the holders know its password) whose encrypted data or parameters
 			// are not what they should be, in a document which is still well-formed DER
@@ -728,7 +770,7 @@ func TestKeyStoreReloadsAreRejectedNotFatal(t *testing.T) {
 			// one to three usable keys, followed by one which is not (a key store is used as a whole or not at all)
 			good := rapid.SliceOfNDistinct(rapid.SampledFrom([]string{"ecp256b", "ecp384", "rsa2048", "rsa3072"}), 1, 3, rapid.ID[string]).Draw(t, "usableKeys")
 			content = validKeyStore(false, good...)
-			content = append(content, vkit.ReadFixture(rapid.SampledFrom([]string{"rsa1024.key.pem", "rsa1024.pkcs1.key.pem", "ecp224.key.pem"}).Draw(t, "keyFile"))...)
+			content = append(content, unsupportedKey(rapid.SampledFrom([]string{"rsa1024.key.pem", "rsa1024.pkcs1.key.pem", "ecp224.key.pem", "generated:rsa2560"}).Draw(t, "keyFile"))...)
 		case "truncated":
 			full := validKeyStore(true, "ecp384")
 			content = full[:rapid.IntRange(0, len(full)-1).Draw(t, "at")]
